@@ -239,6 +239,8 @@ fn run_shard(ctx: &ShardCtx) {
     run_lockstep_shard(ctx, "editor-session", "C05", ctx.tier.pick(1_500_000, 15_000_000), opts(ctx.tier), SETS, FLAGS);
     // what the coverage-guided campaign (prepare) kept, re-run and classified in the plain harness build
     fuzzdrv::replay_lock_corpus(ctx, "C05", "editor-session", FLAGS);
+    // the same sessions on the library as users build it (no verif-hooks), against the hooked build
+    super::hookfree::stage(ctx, ctx.tier.pick(60_000, 1_000_000), opts(ctx.tier), SETS);
 }
 
 const SETS: &[&str] = &["raw", "raw", "enum", "group"];
@@ -254,10 +256,14 @@ fn opts(tier: Tier) -> GenOpts {
 }
 
 fn prepare(tier: Tier, seed: u64, _dir: &std::path::Path) -> Result<Value, PrepError> {
+    super::hookfree::build().map_err(PrepError::Inconclusive)?;
     fuzzdrv::prepare_lockstep("C05", "editor-session", "editor", opts(tier), SETS, tier, seed)
 }
 
 fn replay(sub: &str, case: &Value) -> Verdict {
+    if sub == super::hookfree::SUB {
+        return super::hookfree::replay(case);
+    }
     if sub == "editor-closure" {
         let cap = case["cmd_buf"].as_u64().unwrap_or(0) as usize;
         let mut st = RefEditor::new(cap);
